@@ -5,7 +5,9 @@ package main
 // rejects can be injected is faulted in turn, and the emitted line is observed;
 // (b) sink/core failures: loggers over trees of cores whose sinks fail per entry
 // (write error, short write with and without error, sync error), observing every
-// sink call, the error output and whether the logging call returned.
+// sink call, the error output and whether the logging call returned;
+// (c) (c10_seq.go) the same trees with JSON and console leaves fed sequences of full
+// entries (field trees, With chains), observing the bytes every sink call is handed.
 
 import (
 	"bytes"
@@ -27,6 +29,10 @@ type recSink struct {
 	outs   []sinkOutcome
 	entry  *int
 	events *[]SX
+	bytes  bool // record (a copy of) the bytes handed to Write
+	// a sink that itself logs (through an unrelated zap core) while it handles Write: the bytes it
+	// was handed must stay untouched for the whole call
+	nest zapcore.Core
 }
 
 func (s *recSink) out() sinkOutcome {
@@ -36,7 +42,14 @@ func (s *recSink) out() sinkOutcome {
 	return sinkOutcome{}
 }
 func (s *recSink) Write(p []byte) (int, error) {
-	*s.events = append(*s.events, L(I(0), I(s.id)))
+	if s.nest != nil {
+		_ = s.nest.Write(zapcore.Entry{Message: "sink is busy"}, []zapcore.Field{zap.Int("n", len(p)), zap.Reflect("r", map[string]int{"a": 1})})
+	}
+	if s.bytes {
+		*s.events = append(*s.events, L(I(0), I(s.id), B(append([]byte(nil), p...))))
+	} else {
+		*s.events = append(*s.events, L(I(0), I(s.id)))
+	}
 	switch s.out().kind {
 	case 1:
 		return 0, fmt.Errorf("W%d.%d", s.id, *s.entry)
@@ -71,6 +84,9 @@ type coreSpec struct {
 	id   int
 	outs []sinkOutcome
 	subs []*coreSpec
+	// sequence cases (c10_seq.go): the leaf's encoder kind is part of the case; nest = the sink logs
+	// through an unrelated core during Write (environment only: the model ignores it)
+	seq, con, nest bool
 }
 
 func (cs *coreSpec) build(entry *int, events *[]SX) zapcore.Core {
@@ -101,6 +117,9 @@ func (cs *coreSpec) sx() SX {
 				s = L(Str(fmt.Sprintf("S%d.%d", cs.id, k)))
 			}
 			outs = append(outs, L(w, s))
+		}
+		if cs.seq {
+			return L(I(0), I(cs.id), L(outs...), Bool(cs.con), Bool(cs.nest))
 		}
 		return L(I(0), I(cs.id), L(outs...))
 	case 1:
@@ -297,6 +316,8 @@ func c10(c *Ctx) {
 		c10sink(c, gen(3), r.Bool(), nent, "rand")
 	}
 	_ = errors.New
+	// (c) sequences of full entries through trees of JSON and console cores: what every sink receives
+	c10sequences(c, r)
 	reportFloatMonitor(c)
 }
 
